@@ -163,7 +163,7 @@ func fmtEvalMin(id string, rc recCase, eval func(recCase) *Violation) *Violation
 
 // ---------------------------------------------------------------- layers
 
-var c04keys = []string{"k", "a.b", "a b", `a"b`, `a\b`, "é", "a\nb", strings.Repeat("K", 64), "a\x01b", "a\xffb", ""}
+var c04keys = []string{"k", "a.b", "a b", `a"b`, `a\b`, "é", "a\nb", strings.Repeat("K", 64), "a\x01b", "a\xffb", "", strings.Repeat("long-key-", 40), "17"}
 
 // representatives for attribute lists (L3)
 func listReps(thorough bool) []func(key string) attrNode {
@@ -208,6 +208,7 @@ func groupShapes() [][]attrNode {
 		group("g", group("h", group("i", l("x"), s("y")), l("z")), l("w")),
 		group("g", group("h1", l("x")), group("h2", l("x"))),
 		group("g", group("h", group("i"))),
+		group("g", l("a1"), group("h", l("a2"), group("i", l("a3"), group("j", l("a4"), group("k", l("a5"), s("a6")), l("z4")), l("z3")), l("z2")), l("z1")), // six levels deep
 	}
 	var out [][]attrNode
 	for _, g := range shapes {
@@ -249,7 +250,7 @@ func fmtCases(format string, keys []string, thorough bool, emit func(rc recCase)
 			emit(rc)
 		}
 	}
-	for _, m := range []string{"", " ", strings.Repeat("0123456789", 200), "\xff", "\"", "\\", `","level":"panic","x":"`, "tail\\", "\xe4\xb8"} {
+	for _, m := range []string{"", " ", strings.Repeat("0123456789", 200), strings.Repeat("seventy kilobytes of text \u00e9\n", 2400), "\xff", "\"", "\\", `","level":"panic","x":"`, "tail\\", "\xe4\xb8"} {
 		rc := base
 		rc.Layer = "L1-msg-special"
 		rc.MsgQ = qk(m)
